@@ -55,10 +55,14 @@ KINDS = ['pattern', 'pattern_continue', 'default', 'default_false', 'absent', 'p
 _FILES = {}
 
 
+# a plain anchored prefix, an end anchor, a bare word; matching is case-insensitive (re.I) as carbon compiles them
+PATS = ['^a', 'b$', 'c']
+
+
 def _section(idx, kind):
   dest = '%s:%d:%s' % DESTS[idx]
   name = 'sec%d' % idx
-  pat = ['^a\\.', 'b$', 'c'][idx]
+  pat = PATS[idx]
   if kind == 'pattern':
     return '[%s]\npattern = %s\ndestinations = %s\n\n' % (name, pat, dest)
   if kind == 'pattern_continue':
@@ -83,8 +87,7 @@ def _gen_rule_files():
 
 
 _gen_rule_files()
-PATS = ['^a\\.', 'b$', 'c']
-METRICS = ['a.b', 'a.x', 'x.b', 'c', 'zzz', 'A.B', 'a.cb']
+METRICS = ['a.b', 'A.B', 'x.b', 'c', 'zzz', 'a.x', 'a.cb', 'xa']
 
 
 def C16_rules_file(a: int, b: int, c: int, mi: int) -> bool:
